@@ -515,27 +515,44 @@ abbrev Env := Vm.Env
 def initState (cfg : Config) : Reg.State :=
   { Reg.State.init cfg.prefixes with suffixes := cfg.suffixes }
 
+/-- the templates by name, as `lookupLast` reads them -/
+def namedOf (tds : List TemplateData) : List (String × TemplateData) := tds.map fun td => (td.name, td)
+
+/-- `finalize_templates` on the summaries of the batch; a panic / fuel outcome of the registry
+model is passed on as such -/
+def register (cfg : Config) (tds : List TemplateData) : Except AddErr Reg.State :=
+  match Reg.addBatchR cfg.reg (initState cfg) (tds.map fun td => Reg.ItemR.good td.summary) id id with
+  | (st, none) => .ok st
+  | (_, some .panic) => .error (.panic "finalize_templates")
+  | (_, some .outOfFuel) => .error .outOfFuel
+  | (_, some e) => .error (.registry e)
+
+/-- the environment of the VM from the stored chunks and the derived data (adapter) -/
+def buildEnv (cfg : Config) (tds : List TemplateData) (st : Reg.State) : Option Env :=
+  match infosOf (namedOf tds) st.templates, globalComponents (namedOf tds) st.comps with
+  | some tpls, some comps =>
+    some (mkEnv cfg
+      (tpls ++ includeAliases cfg.prefixes (st.templates.map (·.tpl)) tpls
+        ((st.templates.map (·.tpl)).flatMap (·.includeCalls))) comps)
+  | _, _ => none
+
+/-- translation validation: every chunk of the environment passes `Vm.checkChunk` -/
+def validate (env : Env) : Except AddErr Env :=
+  match firstUnchecked env with
+  | some what => .error (.unchecked what)
+  | none => .ok env
+
 /-- `Tera::default()` + configuration, then `add_raw_templates(sources)`. -/
 def addTemplates (cfg : Config) (sources : List (String × Bytes)) : Except AddErr Env :=
   match newAll cfg.delims sources with
   | .error e => .error e
   | .ok tds =>
-    let items := tds.map fun td => Reg.ItemR.good td.summary
-    match Reg.addBatchR cfg.reg (initState cfg) items id id with
-    | (_, some .panic) => .error (.panic "finalize_templates")
-    | (_, some .outOfFuel) => .error .outOfFuel
-    | (_, some e) => .error (.registry e)
-    | (st, none) =>
-      let named := tds.map fun td => (td.name, td)
-      match infosOf named st.templates, globalComponents named st.comps with
-      | some tpls, some comps =>
-        let S := st.templates.map (·.tpl)
-        let aliases := includeAliases cfg.prefixes S tpls (S.flatMap (·.includeCalls))
-        let env := mkEnv cfg (tpls ++ aliases) comps
-        match firstUnchecked env with
-        | some what => .error (.unchecked what)
-        | none => .ok env
-      | _, _ => .error (.internal "derived data names a chunk that does not exist")
+    match register cfg tds with
+    | .error e => .error e
+    | .ok st =>
+      match buildEnv cfg tds st with
+      | none => .error (.internal "derived data names a chunk that does not exist")
+      | some env => validate env
 
 /-! ## `render` / `render_block` -/
 
